@@ -54,7 +54,7 @@ def make(cls, rnd):
         r = GR.gen_metrics(rnd)
         if r is None:
             return None
-        return r, "metrics", None
+        return r, "metrics", getattr(r, "_extents", None)
     raise ValueError(cls)
 
 
